@@ -588,3 +588,48 @@ V("C20", "histosys-append-check-removed", "fire", "C20.R4", "histosys loses its 
   (MD + "histosys.py", "        if thismod and not (\n            len(thismod['data']['lo_data']) == len(thismod['data']['hi_data']) == len(nom)\n        ):", "        if False:"))
 V("C20", "inits-cast-before-length-check", "fire", "C20.R6", "inits overrides are converted before (and instead of) the length check",
   ("src/pyhf/parameters/utils.py", "            elif isinstance(v, list) and default_v and len(v) != len(default_v):", "            elif k == 'inits' and isinstance(v, list):\n                v = [float(x) for x in v]\n            elif isinstance(v, list) and default_v and len(v) != len(default_v):"))
+
+# ------------------------------------------------------------------ round 3: interpreted rules
+ULF = "src/pyhf/infer/intervals/upper_limits.py"
+V("C09", "grid-drops-last-point", "fire", "C09.R5", "the interpolation ignores the last grid point",
+  (ULF, "    limits = [_interp(level, result_array[idx][::-1], scan[::-1]) for idx in range(6)]", "    limits = [_interp(level, result_array[idx][:-1][::-1], scan[:-1][::-1]) for idx in range(6)]"))
+V("C09", "grid-options-dropped", "fire", "C09.R5", "grid hypotests lose the caller's options",
+  (ULF, "        hypotest(mu, data, model, return_expected_set=True, **hypotest_kwargs)\n        for mu in scan", "        hypotest(mu, data, model, return_expected_set=True)\n        for mu in scan"))
+V("C09", "auto-pops-option", "fire", "C09.R6", "upper_limit consumes an option instead of passing it on",
+  (ULF, "    bounds = model.config.suggested_bounds()[", "    hypotest_kwargs.pop('par_bounds', None)\n    bounds = model.config.suggested_bounds()["))
+V("C09", "auto-cache-per-model", "fire", "C09.R6", "results of the automatic scan remembered per model object",
+  (ULF, "def _interp(x, xp, fp):", "_RESULTS = {}\n\n\ndef _interp(x, xp, fp):"),
+  (ULF, "    cache = {}\n\n    def f_cached(poi):", "    cache = _RESULTS.setdefault(id(model), {})\n\n    def f_cached(poi):"))
+V("C09", "grid-list-comprehension-renamed", "silent", "", "loop variable of the grid scan renamed",
+  (ULF, "        hypotest(mu, data, model, return_expected_set=True, **hypotest_kwargs)\n        for mu in scan", "        hypotest(poi_value, data, model, return_expected_set=True, **hypotest_kwargs)\n        for poi_value in scan"))
+PSF = "src/pyhf/patchset.py"
+V("C17", "getitem-falsy-patch", "fire", "C17.R6", "lookup treats an empty patch as missing",
+  (PSF, "        try:\n            return self._patches_by_key[key]\n        except KeyError:\n            raise exceptions.InvalidPatchLookup(\n                f'No patch associated with \"{key}\" is defined in patchset.'\n            )", "        patch = self._patches_by_key.get(key)\n        if not patch:\n            raise exceptions.InvalidPatchLookup(\n                f'No patch associated with \"{key}\" is defined in patchset.'\n            )\n        return patch"))
+V("C17", "getitem-get-is-none", "silent", "", "lookup rewritten with .get and an `is None` test",
+  (PSF, "        try:\n            return self._patches_by_key[key]\n        except KeyError:\n            raise exceptions.InvalidPatchLookup(\n                f'No patch associated with \"{key}\" is defined in patchset.'\n            )", "        patch = self._patches_by_key.get(key)\n        if patch is None:\n            raise exceptions.InvalidPatchLookup(\n                f'No patch associated with \"{key}\" is defined in patchset.'\n            )\n        return patch"))
+V("C17", "verify-remembers-object", "fire", "C17.R6", "verification remembered per workspace object",
+  (PSF, "        for hash_alg, digest in self.digests.items():", "        if getattr(self, '_verified', None) is spec:\n            return\n        self._verified = spec\n        for hash_alg, digest in self.digests.items():"))
+V("C17", "digest-keys-unsorted-in-lists", "fire", "C17.R6", "digest sorts top-level keys only",
+  ("src/pyhf/utils.py", "        stringified = json.dumps(obj, sort_keys=True, ensure_ascii=False).encode('utf8')", "        stringified = json.dumps({k: obj[k] for k in sorted(obj)} if isinstance(obj, dict) else obj, ensure_ascii=False).encode('utf8')"))
+CAL = "src/pyhf/infer/calculators.py"
+V("C14", "empirical-strict-inequality", "fire", "C14.R1", "ties are not counted in the tail fraction",
+  (CAL, "                    self.samples >= value, tensorlib.astensor(1), tensorlib.astensor(0)", "                    self.samples > value, tensorlib.astensor(1), tensorlib.astensor(0)"))
+V("C14", "empirical-drops-infinite", "fire", "C14.R1", "infinite statistics are filtered out of the sample",
+  (CAL, "        self.samples = tensorlib.ravel(samples)", "        samples = tensorlib.ravel(samples)\n        self.samples = tensorlib.boolean_mask(samples, tensorlib.isfinite(samples))"))
+V("C14", "toy-clb-floored", "fire", "C14.R1", "CLb floored at one toy and returned",
+  (CAL, "        CLb = bkg_only_distribution.pvalue(teststat)\n        CLs = tensorlib.astensor(CLsb / CLb)\n        return CLsb, CLb, CLs\n\n    def expected_pvalues(self, sig_plus_bkg_distribution, bkg_only_distribution):\n        r\"\"\"\n        Calculate the :math:`\\mathrm{CL}_{s}` values corresponding to the\n        median significance of variations of the signal strength from the\n        background only hypothesis :math:`\\left(\\mu=0\\right)` at\n        :math:`(-2,-1,0,1,2)\\sigma`.\n\n        Example:\n\n            >>> import pyhf\n            >>> import numpy.random as random", "        CLb = bkg_only_distribution.pvalue(teststat)\n        CLb = tensorlib.where(CLb > 0, CLb, tensorlib.astensor(1.0 / tensorlib.shape(bkg_only_distribution.samples)[0]))\n        CLs = tensorlib.astensor(CLsb / CLb)\n        return CLsb, CLb, CLs\n\n    def expected_pvalues(self, sig_plus_bkg_distribution, bkg_only_distribution):\n        r\"\"\"\n        Calculate the :math:`\\mathrm{CL}_{s}` values corresponding to the\n        median significance of variations of the signal strength from the\n        background only hypothesis :math:`\\left(\\mu=0\\right)` at\n        :math:`(-2,-1,0,1,2)\\sigma`.\n\n        Example:\n\n            >>> import pyhf\n            >>> import numpy.random as random"))
+V("C12", "channel-slices-listing-order", "fire", "C12.R8", "channel slices accumulated in listing order",
+  ("src/pyhf/mixins.py", "        for c in self._channels:\n            end = begin + self._channel_nbins[c]", "        for c in [ch['name'] for ch in channels]:\n            end = begin + self._channel_nbins[c]"))
+V("C12", "samples-not-deduplicated", "fire", "C12.R8", "sample summary keeps repeated names",
+  ("src/pyhf/mixins.py", "        self._samples = sorted(list(set(self._samples)))", "        self._samples = sorted(self._samples)"))
+V("C10", "parfield-par-order", "fire", "C10.R5", "parameter field sized by the number of parameter sets",
+  ("src/pyhf/modifiers/lumi.py", "            (self.batch_size, pdfconfig.npars)\n            if self.batch_size\n            else (pdfconfig.npars,)", "            (self.batch_size, len(pdfconfig.par_order))\n            if self.batch_size\n            else (len(pdfconfig.par_order),)"))
+V("C11", "backend-recreated-after-test", "fire", "C11.R4", "backend object re-created after the change test",
+  ("src/pyhf/tensor/manager.py", "    # set new backend\n    this.state['current'] = (new_backend, new_optimizer)", "    if precision is not None and new_backend.precision != precision:\n        new_backend = getattr(BackendRetriever, f\"{new_backend.name:s}_backend\")(**backend_kwargs)\n    # set new backend\n    this.state['current'] = (new_backend, new_optimizer)"))
+OSC, OMI = "src/pyhf/optimize/opt_scipy.py", "src/pyhf/optimize/opt_minuit.py"
+V("C05", "scipy-options-setdefault", "fire", "C05.R3", "per-call solver options written into the optimizer's defaults",
+  (OSC, "        if options:\n            raise exceptions.Unsupported(", "        solver_options.setdefault('maxiter', maxiter)\n        if options:\n            raise exceptions.Unsupported("))
+V("C05", "minuit-start-clamped", "fire", "C05.R3", "Minuit start values clamped inside the bounds, constant parameters included",
+  (OMI, "        minuit = iminuit.Minuit(wrapped_objective, init_pars, grad=jac, name=par_names)", "        init_pars = [min(max(v, lo + 1e-4 * (hi - lo)), hi - 1e-4 * (hi - lo)) for v, (lo, hi) in zip(init_pars, init_bounds)]\n        minuit = iminuit.Minuit(wrapped_objective, init_pars, grad=jac, name=par_names)"))
+V("C05", "fit-all-false-mask", "fire", "C05.R1", "an all-False mask is treated as no mask",
+  ("src/pyhf/infer/mle.py", "    fixed_params = fixed_params or pdf.config.suggested_fixed()", "    fixed_params = fixed_params if (fixed_params is not None and any(fixed_params)) else pdf.config.suggested_fixed()"))
